@@ -331,7 +331,7 @@ def valid_prefix(ch, client):
         for i in range(n):
             sid = 1 + 2 * i
             ep.call('send_headers', sid, POST)
-            kind = ch.int(0, 5)
+            kind = ch.int(0, 6)
             steps.append((sid, kind))
             if kind == 0:
                 open_sid = sid                      # awaiting response
@@ -349,6 +349,8 @@ def valid_prefix(ch, client):
                     steps.append((next_push, 'pushed-and-ended'))
                 next_push += 2
                 open_sid = sid
+            elif kind == 6:
+                ep.call('reset_stream', sid, 8)          # cancelled by the application
             elif kind == 5:
                 # request and response both complete: closed by END_STREAM in both directions
                 ep.call('end_stream', sid)
@@ -368,7 +370,7 @@ def valid_prefix(ch, client):
     for i in range(n):
         sid = next_sid
         next_sid += 2
-        kind = ch.int(0, 3)
+        kind = ch.int(0, 4)
         steps.append((sid, kind))
         highest = sid
         if kind == 0:
@@ -377,6 +379,9 @@ def valid_prefix(ch, client):
         elif kind == 1:
             ep.recv(wire.headers(sid, enc.encode(REQ), end_stream=True))
             ep.call('send_headers', sid, RESP, end_stream=True)
+        elif kind == 4:
+            ep.recv(wire.headers(sid, enc.encode(POST)))
+            ep.call('reset_stream', sid, 8)              # refused by the application
         elif kind == 2:
             ep.recv(wire.headers(sid, enc.encode(POST)))
             ep.recv(wire.rst_stream(sid, 8))
